@@ -1,20 +1,42 @@
 (* C20: equality (==, !=, contains) is a deep, type-strict equivalence and
    truthiness is one uniform rule.
 
-   Summary of what is proved about the model [equal] of Model/Compare.v:
+   Summary of what is proved about the model [equal] of Model/Compare.v (with
+   the textual shortcut: two json.Number values with the same valid JSON text
+   are equal without conversion):
    - [equal_type_strict]  values of different JSON types are never equal;
-   - [equal_trans]        transitivity holds for ALL values, no hypothesis;
+   - [equal_refl]         reflexivity on ALL JSON values, no premise on numbers
+                          (was false before the shortcut: 1e7000 was not equal
+                          to itself; now [equal_big_number_refl]).  It rests on
+                          [json_number_parses]: every text accepted by the RFC
+                          8259 number checker [json_number_ok] of Num/Dec.v is
+                          accepted by the JSON text parser of Json/JsonText.v
+                          and decodes to that very json.Number.
+                          [equal_refl_iff] characterises reflexivity on all
+                          well-formed Go values, [equal_refl_premise] is the
+                          variant with an explicit premise on number leaves;
+   - [equal_trans_all]    transitivity holds for ALL values, no hypothesis
+                          ([equal_trans] is the JSON-value instance);
    - [equal_sym]          symmetry holds for all well-formed values (unique keys);
-   - [equal_refl_iff]     on a JSON value x, equal x x = true  IFF  every number
-                          leaf of x decodes (parse_dec succeeds).  Reflexivity is
-                          therefore FALSE in general: the JSON document 1e7000
-                          is not equal to itself ([equal_refl_refuted]);
+   - [equal_equivalence]  the three together on JSON values;
    - [equal_obj_perm]     object comparison ignores member order;
-   - numbers compare by decimal value ([equal_numbers], [equal_spellings]);
-   - [ne_is_negation], [contains_uses_equal];
-   - truthiness: [is_true_false_iff] and the four users of is_true. *)
+   - numbers that decode compare by decimal value ([equal_numbers],
+     [equal_spellings]); numbers that do not decode are equal exactly to the
+     same valid JSON text ([equal_numbers_undecodable],
+     [equal_big_numbers_textual]: 1e7000 and 10e6999 are still different);
+   - [ne_is_negation], [contains_uses_equal], [ne_self_false], [contains_member];
+   - truthiness: [is_true_false_iff] and the four users of is_true;
+   - decoding of JSON number text: [json_number_dec_ok] /
+     [json_number_dec_finite] (a decoded JSON number is never NaN, never an
+     infinity), [json_number_decimal_refuted] (decoding can fail),
+     [json_number_plain_cases] (without an exponent part it decodes to a finite
+     decimal or is a range error), [json_number_plain_finite] /
+     [json_number_plain_decodes] (it decodes when the text has at most 6144
+     bytes), [json_number_plain_overflow] (1 followed by >= 6145 zeros does
+     not decode: Num/Dec.v parse_dec now reports a range error for an
+     overflowing exponent-free literal, like decimal128.Parse). *)
 From Coq Require Import List ZArith Bool Lia Permutation Arith.
-From JM Require Import Base.Outcome Base.Bytes Num.Dec Num.Flt Json.Value
+From JM Require Import Base.Outcome Base.Bytes Num.Dec Num.Flt Json.Value Json.JsonText
   Model.Ast Model.Compare Model.Array Model.Eval Proofs.DecTheory.
 Import ListNotations.
 Open Scope Z_scope.
@@ -62,25 +84,71 @@ Definition jtype (v : value) : nat :=
   | VArr _ => 4 | VObj _ => 5 | VForeign _ => 6
   end%nat.
 
+(* does the json.Number text decode as one JSON value (encoding/json model)? *)
+Definition json_text_ok (s : bytes) : bool :=
+  match json_parse s with Some _ => true | None => false end.
+
+(* the textual shortcut of equal(): two json.Number values with the same valid
+   JSON text are equal without any conversion *)
+Definition num_short (n : num) (y : value) : bool :=
+  match n, y with
+  | NJson s, VNum (NJson t) => beqb s t && json_text_ok s
+  | _, _ => false
+  end.
+
 Lemma equal_num_l : forall n y,
   equal (VNum n) y =
+  if num_short n y then true else
   match to_decimal (VNum n) with
   | Some a => match to_decimal y with Some b => dec_equal a b | None => false end
   | None => false
   end.
 Proof. reflexivity. Qed.
 
+Lemma num_short_inv : forall n y, num_short n y = true ->
+  exists s, n = NJson s /\ y = VNum (NJson s) /\ json_text_ok s = true.
+Proof.
+  intros n y H. destruct n as [s| | | ]; try discriminate H.
+  destruct y as [ | | |[t| | | ]| | | ]; try discriminate H.
+  cbn [num_short] in H. apply andb_true_iff in H as [E K]. apply beqb_eq in E; subst t.
+  exists s. auto.
+Qed.
+
 Lemma to_decimal_some : forall y d, to_decimal y = Some d -> exists n, y = VNum n.
 Proof. intros y d; destruct y; simpl; try discriminate; eauto. Qed.
 
+(* a number is equal to y exactly in two ways: same valid JSON text, or both
+   sides decode and the decimals are equal *)
 Lemma equal_num_inv : forall n y, equal (VNum n) y = true ->
-  exists n' a b, y = VNum n' /\ to_decimal (VNum n) = Some a /\ to_decimal (VNum n') = Some b /\
-                 dec_equal a b = true.
+  exists n', y = VNum n' /\
+    ((exists s, n = NJson s /\ n' = NJson s /\ json_text_ok s = true) \/
+     (exists a b, to_decimal (VNum n) = Some a /\ to_decimal (VNum n') = Some b /\
+                  dec_equal a b = true)).
 Proof.
   intros n y H. rewrite equal_num_l in H.
-  destruct (to_decimal (VNum n)) as [a|] eqn:E1; [|discriminate].
-  destruct (to_decimal y) as [b|] eqn:E2; [|discriminate].
-  destruct (to_decimal_some _ _ E2) as [n' ->]. exists n', a, b. auto.
+  destruct (num_short n y) eqn:S.
+  - apply num_short_inv in S as (s & -> & -> & K). exists (NJson s). split; [reflexivity|].
+    left. exists s. auto.
+  - destruct (to_decimal (VNum n)) as [a|] eqn:E1; [|discriminate].
+    destruct (to_decimal y) as [b|] eqn:E2; [|discriminate].
+    destruct (to_decimal_some _ _ E2) as [n' ->]. exists n'. split; [reflexivity|].
+    right. exists a, b. auto.
+Qed.
+
+(* converse, decimal way *)
+Lemma equal_num_dec : forall n n' a b,
+  to_decimal (VNum n) = Some a -> to_decimal (VNum n') = Some b -> dec_equal a b = true ->
+  equal (VNum n) (VNum n') = true.
+Proof.
+  intros n n' a b E1 E2 H. rewrite equal_num_l. destruct (num_short n (VNum n')); [reflexivity|].
+  rewrite E1, E2. exact H.
+Qed.
+
+(* converse, textual way *)
+Lemma equal_num_text : forall s, json_text_ok s = true ->
+  equal (VNum (NJson s)) (VNum (NJson s)) = true.
+Proof.
+  intros s K. rewrite equal_num_l. cbn [num_short]. rewrite beqb_refl, K. reflexivity.
 Qed.
 
 Theorem equal_type_strict : forall x y, equal x y = true -> jtype x = jtype y.
@@ -89,7 +157,7 @@ Proof.
   - destruct y; simpl in H; try discriminate H; reflexivity.
   - destruct y; simpl in H; try discriminate H; reflexivity.
   - destruct y; simpl in H; try discriminate H; reflexivity.
-  - apply equal_num_inv in H as (n' & a & b & -> & _). reflexivity.
+  - apply equal_num_inv in H as (n' & -> & _). reflexivity.
   - destruct y; try (simpl in H; discriminate H); reflexivity.
   - destruct y; try (simpl in H; discriminate H); reflexivity.
   - simpl in H; discriminate H.
@@ -233,7 +301,9 @@ Proof.
   end.
   assert (HF : 0 <= c) by (eapply (frac_nonneg ip ni r1); [exact Hip | exact T2]).
   destruct (nd =? 0); [discriminate|].
-  destruct r2 as [|b2 r]; [intros H; inversion H; left; apply fit_ok; exact HF|].
+  destruct r2 as [|b2 r].
+  { pose proof (fit_ok neg c (- nf) HF) as HO. destruct (fit neg c (- nf));
+      intros H; inversion H; subst; left; exact HO. }
   destruct ((b2 =? 101) || (b2 =? 69)); [|discriminate].
   match goal with |- (let '(eneg, r') := ?T in _) = _ -> _ => destruct T as [eneg r'] end.
   destruct (take_digits r' 0 0) as [[ev ne] r''].
@@ -270,8 +340,7 @@ Proof.
 Qed.
 
 (* item 0, first half: whenever the text of a JSON number decodes, the result is
-   an ordered decimal (never NaN; an infinity is possible only through overflow
-   of an exponent-free literal, see below) *)
+   an ordered decimal (never NaN) *)
 Lemma json_number_dec_ok : forall t d,
   json_number_ok t = true -> parse_dec t = Some d -> dec_ok d.
 Proof.
@@ -447,8 +516,9 @@ Proof.
     simpl. apply Bool.eqb_reflx.
   - destruct y; simpl in H; try discriminate H. apply beqb_eq in H; subst.
     simpl. apply beqb_refl.
-  - apply equal_num_inv in H as (n' & p & q & -> & E1 & E2 & H).
-    rewrite equal_num_l, E2, E1, dec_equal_sym. exact H.
+  - apply equal_num_inv in H as (n' & -> & [(s & -> & -> & K) | (p & q & E1 & E2 & H)]).
+    + apply equal_num_text; exact K.
+    + apply (equal_num_dec _ _ _ _ E2 E1). rewrite dec_equal_sym. exact H.
   - destruct y as [ | | | | c | | ]; try (simpl in H; discriminate H).
     rewrite equal_arr in *. apply wf_arr in Wx. apply wf_arr in Wy.
     eapply arr_eq_sym; eauto.
@@ -533,10 +603,13 @@ Proof.
   - destruct y; simpl in H1; try discriminate H1. exact H2.
   - destruct y; simpl in H1; try discriminate H1. apply Bool.eqb_prop in H1; subst. exact H2.
   - destruct y; simpl in H1; try discriminate H1. apply beqb_eq in H1; subst. exact H2.
-  - apply equal_num_inv in H1 as (n' & p & q & -> & E1 & E2 & H1).
-    apply equal_num_inv in H2 as (n'' & q' & r & -> & E2' & E3 & H2).
+  - pose proof H1 as H1'. pose proof H2 as H2'.
+    apply equal_num_inv in H1 as (n' & -> & [(s & -> & -> & K) | (p & q & E1 & E2 & H1)]);
+      [exact H2'|].
+    apply equal_num_inv in H2 as (n'' & -> & [(s & -> & -> & K) | (q' & r & E2' & E3 & H2)]);
+      [exact H1'|].
     rewrite E2 in E2'. inversion E2'; subst q'.
-    rewrite equal_num_l, E1, E3. eapply dec_equal_trans_all; eauto.
+    apply (equal_num_dec _ _ _ _ E1 E3). eapply dec_equal_trans_all; eauto.
   - destruct y as [ | | | | b | | ]; try (simpl in H1; discriminate H1).
     destruct z as [ | | | | c | | ]; try (simpl in H2; discriminate H2).
     rewrite equal_arr in *. eapply arr_eq_trans; eauto.
@@ -561,86 +634,880 @@ Theorem equal_trans : forall x y z,
 Proof. intros x y z _ _ _. apply equal_trans_all. Qed.
 
 (* ------------------------------------------------------------------ *)
-(* 1a. reflexivity: exactly when every number leaf decodes              *)
+(* 4. numbers by value                                                  *)
 (* ------------------------------------------------------------------ *)
-(* every number leaf of v decodes to an ordered decimal *)
-Fixpoint num_ok (v : value) : Prop :=
-  match v with
-  | VNum n => exists d, to_decimal (VNum n) = Some d /\ dec_ok d
-  | VArr l =>
-    (fix all (l : list value) : Prop :=
-       match l with [] => True | x :: r => num_ok x /\ all r end) l
-  | VObj m =>
-    (fix all (m : list (bytes * value)) : Prop :=
-       match m with [] => True | (_, x) :: r => num_ok x /\ all r end) m
-  | _ => True
+Example equal_spellings :
+  equal (VNum (NJson [49])) (VNum (NJson [49; 46; 48])) = true /\
+  equal (VNum (NJson [49])) (VNum (NJson [49; 101; 48])) = true.  (* 1, 1.0, 1e0 *)
+Proof. split; vm_compute; reflexivity. Qed.
+
+(* the only texts that decode to NaN are "nan" in any case, optionally signed;
+   none of them is JSON text *)
+Lemma nan_text_not_json_text : forall s, map lower_byte s = [110; 97; 110] ->
+  json_text_ok s = false /\ json_text_ok (45 :: s) = false /\ json_text_ok (43 :: s) = false.
+Proof.
+  intros s H. destruct s as [|a [|b [|c [|? ?]]]]; try discriminate H.
+  inversion H as [[Ha Hb Hc]].
+  assert (L : forall x y, lower_byte x = y -> x = y \/ x = y - 32).
+  { intros x y E. unfold lower_byte in E. destruct ((65 <=? x) && (x <=? 90)); [right | left]; lia. }
+  destruct (L _ _ Ha); destruct (L _ _ Hb); destruct (L _ _ Hc); subst a b c;
+    repeat split; vm_compute; reflexivity.
+Qed.
+
+Lemma parse_dec_ok_or_nan : forall s d, parse_dec s = Some d ->
+  dec_ok d \/ (d = DNaN /\ json_text_ok s = false).
+Proof.
+  intros s d. rewrite parse_dec_alt. destruct s as [|b r]; [discriminate|].
+  destruct (b =? 43) eqn:E43.
+  { apply Z.eqb_eq in E43; subst b. destruct r as [|b' r']; [discriminate|].
+    intros H. apply parse_dec_body_ok in H as [H|[-> H]]; [left; exact H|].
+    right. split; [reflexivity|]. apply nan_text_not_json_text in H. tauto. }
+  destruct (b =? 45) eqn:E45.
+  { apply Z.eqb_eq in E45; subst b. destruct r as [|b' r']; [discriminate|].
+    intros H. apply parse_dec_body_ok in H as [H|[-> H]]; [left; exact H|].
+    right. split; [reflexivity|]. apply nan_text_not_json_text in H. tauto. }
+  intros H. apply parse_dec_body_ok in H as [H|[-> H]]; [left; exact H|].
+  right. split; [reflexivity|]. apply nan_text_not_json_text in H. tauto.
+Qed.
+
+(* Numbers that decode compare by decimal value.  The textual shortcut never
+   disagrees with the decimal comparison: it fires only on identical valid JSON
+   text, whose decimal (if any) is not NaN and hence equal to itself. *)
+Theorem equal_numbers : forall s t a b, parse_dec s = Some a -> parse_dec t = Some b ->
+  equal (VNum (NJson s)) (VNum (NJson t)) = dec_equal a b.
+Proof.
+  intros s t a b Hs Ht. rewrite equal_num_l.
+  change (to_decimal (VNum (NJson s))) with (parse_dec s).
+  change (to_decimal (VNum (NJson t))) with (parse_dec t).
+  rewrite Hs, Ht. destruct (num_short (NJson s) (VNum (NJson t))) eqn:S; [|reflexivity].
+  apply num_short_inv in S as (s' & E1 & E2 & K). inversion E1; subst s'. inversion E2; subst t.
+  rewrite Hs in Ht. inversion Ht; subst b.
+  destruct (parse_dec_ok_or_nan _ _ Hs) as [O|[_ F]]; [|congruence].
+  symmetry. apply dec_equal_refl. exact O.
+Qed.
+
+(* Numbers whose text does not decode are equal only to the same valid JSON
+   text (this is the case the shortcut was added for). *)
+Theorem equal_numbers_undecodable : forall s y, parse_dec s = None ->
+  equal (VNum (NJson s)) y =
+  match y with VNum (NJson t) => beqb s t && json_text_ok s | _ => false end.
+Proof.
+  intros s y Hs. rewrite equal_num_l.
+  change (to_decimal (VNum (NJson s))) with (parse_dec s). rewrite Hs.
+  destruct y as [ | | |[t| | | ]| | | ]; cbn [num_short]; try reflexivity.
+  destruct (beqb s t && json_text_ok s); reflexivity.
+Qed.
+
+Theorem equal_numbers_undecodable_r : forall n t, parse_dec t = None ->
+  equal (VNum n) (VNum (NJson t)) =
+  match n with NJson s => beqb s t && json_text_ok s | _ => false end.
+Proof.
+  intros n t Ht. rewrite equal_num_l.
+  change (to_decimal (VNum (NJson t))) with (parse_dec t). rewrite Ht.
+  destruct n as [s| | | ]; cbn [num_short].
+  - destruct (beqb s t && json_text_ok s); [reflexivity|]. destruct (to_decimal _); reflexivity.
+  - reflexivity.
+  - reflexivity.
+  - reflexivity.
+Qed.
+
+(* a number is never equal to its string spelling, to a boolean or to null *)
+Example equal_strict_examples :
+  equal (VNum (NJson [49])) (VStr [49]) = false /\ equal (VStr [49]) (VNum (NJson [49])) = false /\
+  equal (VNum (NJson [48])) (VBool false) = false /\ equal VNull (VBool false) = false /\
+  equal (VArr []) (VObj []) = false /\ equal (VStr []) VNull = false.
+Proof. repeat split; vm_compute; reflexivity. Qed.
+
+(* ------------------------------------------------------------------ *)
+(* 0'. a sufficient condition for decoding: no exponent part            *)
+(* ------------------------------------------------------------------ *)
+(* json_number_ok and parse_dec_body, cut into stages (same source text as
+   Num/Dec.v, so the stage equations hold by conversion) *)
+Definition strip_minus (s : bytes) : bytes := match s with 45 :: r => r | _ => s end.
+Definition jn_int (s1 : bytes) : option bytes :=
+  match s1 with
+  | 48 :: r => Some r
+  | b :: r => if (49 <=? b) && (b <=? 57) then let '(_, _, r') := take_digits r 0 0 in Some r' else None
+  | [] => None
+  end.
+Definition jn_frac (r1 : bytes) : option bytes :=
+  match r1 with
+  | 46 :: r => let '(_, n, r') := take_digits r 0 0 in if n =? 0 then None else Some r'
+  | _ => Some r1
+  end.
+Definition jn_exp (r2 : bytes) : bool :=
+  match r2 with
+  | [] => true
+  | b :: r =>
+    if (b =? 101) || (b =? 69) then
+      let r' := match r with 45 :: t => t | 43 :: t => t | _ => r end in
+      let '(_, n, r'') := take_digits r' 0 0 in
+      negb (n =? 0) && match r'' with [] => true | _ => false end
+    else false
+  end.
+Definition pd_frac (ip ni : Z) (r1 : bytes) : Z * Z * Z * bytes :=
+  match r1 with
+  | 46 :: r => let '(fp, nfr, r') := take_digits r ip 0 in (fp, nfr, ni + nfr, r')
+  | _ => (ip, 0, ni, r1)
   end.
 
-Lemma num_ok_arr : forall l, num_ok (VArr l) <-> Forall num_ok l.
+Lemma json_number_ok_stages : forall s, json_number_ok s =
+  match jn_int (strip_minus s) with
+  | None => false
+  | Some r1 => match jn_frac r1 with None => false | Some r2 => jn_exp r2 end
+  end.
+Proof. reflexivity. Qed.
+
+Lemma strip_minus_alt : forall s, strip_minus s =
+  match s with [] => [] | b :: r => if b =? 45 then r else s end.
 Proof.
-  induction l as [|x r IH].
-  - split; intros; constructor.
-  - change (num_ok (VArr (x :: r))) with (num_ok x /\ num_ok (VArr r)).
-    rewrite IH, Forall_cons_iff. reflexivity.
+  intros s. destruct s as [|[|p|p] r]; try reflexivity.
+  do 6 (destruct p as [p|p|]; try reflexivity).
 Qed.
 
-Lemma num_ok_obj : forall m, num_ok (VObj m) <-> Forall (fun kv => num_ok (snd kv)) m.
+Lemma jn_int_alt : forall s1, jn_int s1 =
+  match s1 with
+  | [] => None
+  | b :: r =>
+    if b =? 48 then Some r
+    else if (49 <=? b) && (b <=? 57) then let '(_, _, r') := take_digits r 0 0 in Some r' else None
+  end.
 Proof.
-  induction m as [|[k x] r IH].
-  - split; intros; constructor.
-  - change (num_ok (VObj ((k, x) :: r))) with (num_ok x /\ num_ok (VObj r)).
-    rewrite IH, Forall_cons_iff. reflexivity.
+  intros s. destruct s as [|[|p|p] r]; try reflexivity.
+  do 6 (destruct p as [p|p|]; try reflexivity).
 Qed.
 
-Lemma arr_refl_iff : forall a,
-  Forall (fun x => equal x x = true <-> num_ok x) a ->
-  (arr_eq a a = true <-> Forall num_ok a).
+Lemma jn_frac_alt : forall r1, jn_frac r1 =
+  match r1 with
+  | [] => Some r1
+  | b :: r =>
+    if b =? 46 then let '(_, n, r') := take_digits r 0 0 in if n =? 0 then None else Some r'
+    else Some r1
+  end.
 Proof.
-  induction 1 as [|x a Hx _ IH]; cbn [arr_eq].
-  - split; intros; [constructor | reflexivity].
-  - rewrite andb_true_iff, Forall_cons_iff, Hx, IH. reflexivity.
+  intros s. destruct s as [|[|p|p] r]; try reflexivity.
+  do 6 (destruct p as [p|p|]; try reflexivity).
 Qed.
 
-Theorem equal_refl_iff : forall x, json_value x = true -> (equal x x = true <-> num_ok x).
+Lemma pd_frac_alt : forall ip ni r1, pd_frac ip ni r1 =
+  match r1 with
+  | [] => (ip, 0, ni, r1)
+  | b :: r =>
+    if b =? 46 then let '(fp, nfr, r') := take_digits r ip 0 in (fp, nfr, ni + nfr, r')
+    else (ip, 0, ni, r1)
+  end.
+Proof.
+  intros ip ni s. destruct s as [|[|p|p] r]; try reflexivity.
+  do 6 (destruct p as [p|p|]; try reflexivity).
+Qed.
+
+(* what take_digits leaves behind *)
+Fixpoint drest (s : bytes) : bytes :=
+  match s with
+  | b :: r => if is_digit b then drest r else s
+  | [] => []
+  end.
+
+Lemma forallb_drest : forall (P : Z -> bool) s, forallb P s = true -> forallb P (drest s) = true.
+Proof.
+  intros P s. induction s as [|b r IH]; [auto|]. intros H. cbn [drest].
+  destruct (is_digit b); [|exact H]. apply IH. simpl in H. apply andb_true_iff in H as [_ H]. exact H.
+Qed.
+
+Lemma take_digits_bound : forall s acc n k a m r,
+  0 <= k -> 0 <= acc < 10 ^ k -> take_digits s acc n = (a, m, r) ->
+  0 <= a < 10 ^ (k + (m - n)) /\ n <= m /\
+  (m - n) + Z.of_nat (length r) = Z.of_nat (length s) /\ r = drest s.
+Proof.
+  induction s as [|b s IH]; intros acc n k a m r Hk Hacc; simpl take_digits.
+  - intros H; inversion H; subst. replace (k + (m - m)) with k by lia.
+    repeat split; try lia; reflexivity.
+  - cbn [drest]. destruct (is_digit b) eqn:D.
+    + intros H.
+      assert (Hacc' : 0 <= acc * 10 + (b - 48) < 10 ^ (k + 1)).
+      { unfold is_digit in D. apply andb_true_iff in D as [D1 D2].
+        apply Z.leb_le in D1. apply Z.leb_le in D2.
+        rewrite Z.pow_add_r by lia. change (10 ^ 1) with 10. lia. }
+      destruct (IH _ _ (k + 1) _ _ _ ltac:(lia) Hacc' H) as (B & C & L & R).
+      replace (k + 1 + (m - (n + 1))) with (k + (m - n)) in B by lia.
+      repeat split; try lia; try exact R.
+      change (length (b :: s)) with (S (length s)). rewrite Nat2Z.inj_succ. lia.
+    + intros H; inversion H; subst. replace (k + (m - m)) with k by lia.
+      repeat split; try lia; reflexivity.
+Qed.
+
+Lemma beqb_digit_head : forall b r x l, is_digit b = true -> 57 < x ->
+  beqb (map lower_byte (b :: r)) (x :: l) = false.
+Proof.
+  intros b r x l D Hx. cbn [map beqb]. unfold is_digit in D.
+  apply andb_true_iff in D as [D1 D2]. apply Z.leb_le in D1. apply Z.leb_le in D2.
+  unfold lower_byte. destruct ((65 <=? b) && (b <=? 90)) eqn:E.
+  - apply andb_true_iff in E as [E1 _]. apply Z.leb_le in E1. lia.
+  - destruct (Z.eqb_spec b x); [lia | reflexivity].
+Qed.
+
+(* a plain literal that overflows is a range error *)
+Definition no_inf (d : dec) : option dec := match d with DInf _ => None | d => Some d end.
+
+Lemma parse_dec_body_plain : forall neg b s' ip ni r1 c nf nd,
+  is_digit b = true -> take_digits (b :: s') 0 0 = (ip, ni, r1) ->
+  pd_frac ip ni r1 = (c, nf, nd, []) -> nd <> 0 ->
+  parse_dec_body neg (b :: s') = no_inf (fit neg c (- nf)).
+Proof.
+  intros neg b s' ip ni r1 c nf nd D T1 T2 Hnd. unfold parse_dec_body. cbv zeta.
+  rewrite !(beqb_digit_head b s') by (first [exact D | lia]).
+  cbn [orb]. rewrite T1. cbv beta iota.
+  match goal with |- context [match ?T with pair _ _ => _ end] =>
+    match T with context [r1] => change T with (pd_frac ip ni r1) end end.
+  rewrite T2. cbv beta iota.
+  destruct (Z.eqb_spec nd 0); [contradiction|].
+  unfold no_inf. destruct (fit neg c (- nf)); reflexivity.
+Qed.
+
+Lemma digit_facts : forall d, is_digit d = true -> 48 <= d <= 57.
+Proof.
+  intros d D. unfold is_digit in D. apply andb_true_iff in D as [D1 D2].
+  apply Z.leb_le in D1. apply Z.leb_le in D2. lia.
+Qed.
+
+Lemma jn_int_shape : forall s1 r1 r2,
+  jn_int s1 = Some r1 -> jn_frac r1 = Some r2 -> jn_exp r2 = true ->
+  exists b s', s1 = b :: s' /\ is_digit b = true /\ drest s1 = r1.
+Proof.
+  intros s1 r1 r2 JI JF JE. rewrite jn_int_alt in JI. destruct s1 as [|b r]; [discriminate|].
+  exists b, r. destruct (Z.eqb_spec b 48) as [->|N48].
+  - inversion JI; subst r1. split; [reflexivity|]. split; [reflexivity|].
+    cbn [drest]. change (is_digit 48) with true. cbv iota.
+    destruct r as [|d r']; [reflexivity|]. cbn [drest]. destruct (is_digit d) eqn:Dd; [|reflexivity].
+    exfalso. apply digit_facts in Dd. rewrite jn_frac_alt in JF.
+    destruct (Z.eqb_spec d 46); [lia|]. inversion JF; subst r2.
+    unfold jn_exp in JE.
+    destruct (Z.eqb_spec d 101); [lia|]. destruct (Z.eqb_spec d 69); [lia|]. discriminate JE.
+  - destruct ((49 <=? b) && (b <=? 57)) eqn:D; [|discriminate].
+    destruct (take_digits r 0 0) as [[x y] r'] eqn:T. inversion JI; subst r'.
+    assert (Db : is_digit b = true).
+    { unfold is_digit. apply andb_true_iff in D as [D1 D2]. apply Z.leb_le in D1.
+      rewrite D2, andb_true_r. apply Z.leb_le. lia. }
+    split; [reflexivity|]. split; [exact Db|]. cbn [drest]. rewrite Db.
+    destruct (take_digits_bound r 0 0 0 _ _ _ ltac:(lia) ltac:(change (10 ^ 0) with 1; lia) T)
+      as (_ & _ & _ & R). symmetry; exact R.
+Qed.
+
+Lemma frac_align : forall r1 r2 ip ni, jn_frac r1 = Some r2 -> 0 <= ni -> 0 <= ip < 10 ^ ni ->
+  exists c nf nd, pd_frac ip ni r1 = (c, nf, nd, r2) /\ nd = ni + nf /\ 0 <= nf /\
+    0 <= c < 10 ^ nd /\ nf + Z.of_nat (length r2) <= Z.of_nat (length r1) /\
+    (forall P : Z -> bool, forallb P r1 = true -> forallb P r2 = true).
+Proof.
+  intros r1 r2 ip ni JF Hni Hip. rewrite jn_frac_alt in JF. rewrite pd_frac_alt.
+  assert (Dflt : Some r1 = Some r2 ->
+    exists c nf nd, (ip, 0, ni, r1) = (c, nf, nd, r2) /\ nd = ni + nf /\ 0 <= nf /\
+      0 <= c < 10 ^ nd /\ nf + Z.of_nat (length r2) <= Z.of_nat (length r1) /\
+      (forall P : Z -> bool, forallb P r1 = true -> forallb P r2 = true)).
+  { intros H; inversion H; subst r2. exists ip, 0, ni. repeat split; try lia; auto. }
+  destruct r1 as [|b r]; [exact (Dflt JF)|].
+  destruct (b =? 46); [|exact (Dflt JF)]. clear Dflt.
+  destruct (take_digits r 0 0) as [[x n] r'] eqn:TJ. destruct (n =? 0); [discriminate|].
+  inversion JF; subst r'.
+  destruct (take_digits r ip 0) as [[fp nfr] r''] eqn:TP.
+  destruct (take_digits_bound r 0 0 0 _ _ _ ltac:(lia) ltac:(change (10 ^ 0) with 1; lia) TJ)
+    as (_ & _ & _ & RJ).
+  destruct (take_digits_bound r ip 0 ni _ _ _ Hni Hip TP) as (B & C & L & RP).
+  replace (nfr - 0) with nfr in * by lia.
+  assert (E : r'' = r2) by congruence. rewrite E in *. clear E RP.
+  exists fp, nfr, (ni + nfr). repeat split; try lia.
+  - change (length (b :: r)) with (S (length r)). rewrite Nat2Z.inj_succ. lia.
+  - intros P H. rewrite RJ. apply forallb_drest. simpl in H. apply andb_true_iff in H as [_ H]. exact H.
+Qed.
+
+Lemma parse_dec_strip : forall t b s', strip_minus t = b :: s' -> is_digit b = true ->
+  exists neg, parse_dec t = parse_dec_body neg (strip_minus t).
+Proof.
+  intros t b s' H D. rewrite parse_dec_alt. rewrite strip_minus_alt in *.
+  destruct t as [|z r]; [discriminate|]. destruct (Z.eqb_spec z 45) as [->|N45].
+  - change (45 =? 43) with false. cbv iota. subst r. exists true. reflexivity.
+  - inversion H; subst z r. apply digit_facts in D.
+    destruct (Z.eqb_spec b 43); [lia|]. exists false. reflexivity.
+Qed.
+
+Definition no_exp (t : bytes) : bool := forallb (fun b => negb ((b =? 101) || (b =? 69))) t.
+
+Lemma strip_minus_props : forall t,
+  (length (strip_minus t) <= length t)%nat /\
+  (forall P : Z -> bool, forallb P t = true -> forallb P (strip_minus t) = true).
+Proof.
+  intros t. rewrite strip_minus_alt. destruct t as [|b r]; [split; auto|].
+  destruct (b =? 45); [|split; auto]. split; [simpl; lia|].
+  intros P H. simpl in H. apply andb_true_iff in H as [_ H]. exact H.
+Qed.
+
+Lemma drest_length : forall s, (length (drest s) <= length s)%nat.
+Proof.
+  induction s as [|b r IH]; [simpl; lia|]. cbn [drest]. destruct (is_digit b); simpl in *; lia.
+Qed.
+
+(* exponent-free JSON number text decodes to the rounding of an exact
+   coefficient/exponent pair, unless that rounding overflows *)
+Lemma plain_core : forall t, json_number_ok t = true -> no_exp t = true ->
+  exists neg c nf, parse_dec t = no_inf (fit neg c (- nf)) /\ 0 <= nf /\
+                   0 <= c < 10 ^ Z.of_nat (length t).
+Proof.
+  intros t J NE. rewrite json_number_ok_stages in J.
+  destruct (jn_int (strip_minus t)) as [r1|] eqn:JI; [|discriminate].
+  destruct (jn_frac r1) as [r2|] eqn:JF; [|discriminate].
+  destruct (jn_int_shape _ _ _ JI JF J) as (b & s' & Es1 & Db & Er1).
+  destruct (parse_dec_strip t b s' Es1 Db) as [neg Hp].
+  destruct (strip_minus_props t) as [Ls Ps]. unfold no_exp in NE. apply Ps in NE.
+  rewrite Hp. rewrite Es1 in *.
+  destruct (take_digits (b :: s') 0 0) as [[ip ni] r1'] eqn:T1.
+  destruct (take_digits_bound _ 0 0 0 _ _ _ ltac:(lia) ltac:(change (10 ^ 0) with 1; lia) T1)
+    as (B & C & L & R).
+  assert (E : r1' = r1) by congruence. rewrite E in *. clear E R.
+  replace (0 + (ni - 0)) with ni in B by lia.
+  assert (Hni : 1 <= ni).
+  { simpl in T1. rewrite Db in T1. apply digit_facts in Db.
+    assert (Hb : 0 <= b - 48 < 10 ^ 1) by (change (10 ^ 1) with 10; lia).
+    destruct (take_digits_bound _ _ _ 1 _ _ _ ltac:(lia) Hb T1) as (_ & C' & _).
+    exact C'. }
+  destruct (frac_align r1 r2 ip ni JF ltac:(lia) B) as (c & nf & nd & F & End & Hnf & Bc & Lf & Pf).
+  assert (NE2 : forallb (fun b => negb ((b =? 101) || (b =? 69))) r2 = true).
+  { apply Pf. rewrite <- Er1. apply forallb_drest. exact NE. }
+  assert (r2 = []).
+  { destruct r2 as [|e r2']; [reflexivity|]. exfalso. unfold jn_exp in J. simpl in NE2.
+    destruct ((e =? 101) || (e =? 69)); [discriminate NE2 | discriminate J]. }
+  subst r2.
+  exists neg, c, nf. split; [|split; [exact Hnf|]].
+  - eapply parse_dec_body_plain; eauto. lia.
+  - split; [lia|]. eapply Z.lt_le_trans; [apply Bc|].
+    apply Z.pow_le_mono_r; [lia|]. simpl length in Lf. lia.
+Qed.
+
+(* item 0, second half (model level): an exponent-free JSON number either
+   decodes to a FINITE decimal or is a range error (never NaN, never infinity) *)
+Theorem json_number_plain_cases : forall t, json_number_ok t = true -> no_exp t = true ->
+  parse_dec t = None \/ exists n c e, parse_dec t = Some (DFin n c e) /\ 0 <= c.
+Proof.
+  intros t J NE. destruct (plain_core t J NE) as (neg & c & nf & H & _ & Hc & _).
+  pose proof (fit_ok neg c (- nf) Hc) as O. rewrite H.
+  destruct (fit neg c (- nf)) as [n c' e'| |]; cbn [no_inf].
+  - right. exists n, c', e'. split; [reflexivity | exact O].
+  - left; reflexivity.
+  - destruct O.
+Qed.
+
+Lemma fit_finite : forall neg c e, 0 <= c -> e <= 0 -> digits c <= 6144 ->
+  exists c' e', fit neg c e = DFin neg c' e'.
+Proof.
+  intros neg c e Hc He Hd. unfold fit.
+  destruct (round_coef c e) as [c' e'] eqn:R.
+  assert (He' : e' <= 6111).
+  { unfold round_coef in R. cbv zeta in R. unfold prec34 in *.
+    destruct (digits c <=? 34); [inversion R; lia|].
+    match type of R with context [if ?b then _ else _] => destruct b end; inversion R; lia. }
+  destruct (c' =? 0); [eauto|].
+  destruct (Z.gtb_spec e' emax) as [G|G]; [unfold emax in G; lia|].
+  destruct (e' <? emin); [cbv zeta; destruct (_ >? _); eauto | eauto].
+Qed.
+
+Lemma digits_le : forall c L, 0 <= c < 10 ^ L -> 0 <= L -> digits c <= L.
+Proof.
+  intros c L Hc HL. destruct (Z.eq_dec c 0) as [->|N]; [rewrite digits_nonpos by lia; lia|].
+  pose proof (digits_spec c ltac:(lia)) as [H1 _].
+  destruct (Z_lt_le_dec L (digits c)) as [G|G]; [|lia]. exfalso.
+  assert (10 ^ L <= 10 ^ (digits c - 1)) by (apply Z.pow_le_mono_r; lia). lia.
+Qed.
+
+(* ... and it does decode, to a finite decimal, when the text is at most 6144
+   bytes long (emax + 34 - 1; 6145 nines overflow, and see
+   [json_number_plain_overflow] below) *)
+Theorem json_number_plain_finite : forall t, json_number_ok t = true -> no_exp t = true ->
+  Z.of_nat (length t) <= 6144 -> exists n c e, parse_dec t = Some (DFin n c e) /\ 0 <= c.
+Proof.
+  intros t J NE Len. destruct (plain_core t J NE) as (neg & c & nf & H & Hnf & Hc).
+  assert (Hd : digits c <= 6144).
+  { pose proof (digits_le c (Z.of_nat (length t)) Hc ltac:(lia)). lia. }
+  destruct (fit_finite neg c (- nf) ltac:(lia) ltac:(lia) Hd) as (c' & e' & F).
+  exists neg, c', e'. split; [rewrite H, F; reflexivity|].
+  pose proof (fit_ok neg c (- nf) ltac:(lia)) as O. rewrite F in O. exact O.
+Qed.
+
+Theorem json_number_plain_decodes : forall t, json_number_ok t = true -> no_exp t = true ->
+  Z.of_nat (length t) <= 6144 -> exists d, parse_dec t = Some d /\ dec_ok d.
+Proof.
+  intros t J NE Len. destruct (json_number_plain_finite t J NE Len) as (n & c & e & H & Hc).
+  exists (DFin n c e). split; [exact H | exact Hc].
+Qed.
+
+(* with or without exponent: a JSON number that decodes is FINITE (an overflow
+   is a range error on both paths of parse_dec_body, and the texts "inf" /
+   "infinity" are not JSON) *)
+Lemma parse_dec_body_digit_fin : forall neg b s' d, is_digit b = true ->
+  parse_dec_body neg (b :: s') = Some d -> exists n c e, d = DFin n c e.
+Proof.
+  intros neg b s' d D H0.
+  assert (NN : d <> DNaN).
+  { destruct (parse_dec_body_ok _ _ _ H0) as [O|[_ E]]; [intros ->; exact O|].
+    pose proof (beqb_digit_head b s' 110 [97; 110] D ltac:(lia)) as F.
+    rewrite E, beqb_refl in F. discriminate F. }
+  revert H0. unfold parse_dec_body. cbv zeta.
+  rewrite !(beqb_digit_head b s') by (first [exact D | lia]). cbn [orb].
+  destruct (take_digits (b :: s') 0 0) as [[ip ni] r1].
+  match goal with
+  | |- context [match ?T with pair _ _ => _ end] =>
+    match T with context [r1] => destruct T as [[[c nf] nd] r2] end
+  end.
+  destruct (nd =? 0); [discriminate|].
+  destruct r2 as [|b2 r].
+  { destruct (fit neg c (- nf)); intros H; inversion H; subst; first [congruence | eauto]. }
+  destruct ((b2 =? 101) || (b2 =? 69)); [|discriminate].
+  match goal with |- (let '(eneg, r') := ?T in _) = _ -> _ => destruct T as [eneg r'] end.
+  destruct (take_digits r' 0 0) as [[ev ne] r''].
+  destruct (_ || _); [discriminate|].
+  destruct (ne >? 8).
+  - destruct (c =? 0); [intros H; inversion H; eauto|].
+    destruct eneg; [intros H; inversion H; eauto | discriminate].
+  - match goal with |- match ?F with _ => _ end = _ -> _ => destruct F end;
+      intros H; inversion H; subst; first [congruence | eauto].
+Qed.
+
+Theorem json_number_dec_finite : forall t d,
+  json_number_ok t = true -> parse_dec t = Some d -> exists n c e, d = DFin n c e /\ 0 <= c.
+Proof.
+  intros t d J H. pose proof (json_number_dec_ok t d J H) as O.
+  rewrite json_number_ok_stages in J.
+  destruct (jn_int (strip_minus t)) as [r1|] eqn:JI; [|discriminate].
+  destruct (jn_frac r1) as [r2|] eqn:JF; [|discriminate].
+  destruct (jn_int_shape _ _ _ JI JF J) as (b & s' & Es1 & Db & _).
+  destruct (parse_dec_strip t b s' Es1 Db) as [neg Hp].
+  rewrite Hp, Es1 in H. apply parse_dec_body_digit_fin in H as (n & c & e & ->); [|exact Db].
+  exists n, c, e. split; [reflexivity | exact O].
+Qed.
+
+(* Without a length bound the statement is FALSE: Num/Dec.v reports a range
+   error for an overflowing plain literal (as decimal128.Parse does).  The
+   literal 1 followed by n >= 6145 zeros (10^n, above the largest decimal128
+   9.99..e6144) is RFC 8259 text without exponent and does not decode. *)
+Lemma digits_pow10 : forall k, 0 <= k -> digits (10 ^ k) = k + 1.
+Proof.
+  intros k Hk. assert (P : 0 < 10 ^ k) by (apply Z.pow_pos_nonneg; lia).
+  apply digits_unique; [exact P|].
+  replace (k + 1 - 1) with k by lia. split; [lia|].
+  rewrite Z.pow_add_r by lia. change (10 ^ 1) with 10. lia.
+Qed.
+
+Lemma drop_digits_pow10 : forall k j, 1 <= j <= k -> drop_digits (10 ^ k) j = 10 ^ (k - j).
+Proof.
+  intros k j H. unfold drop_digits, pow10. cbv zeta.
+  assert (P : 0 < 10 ^ j) by (apply Z.pow_pos_nonneg; lia).
+  assert (Q : 0 < 10 ^ (j - 1)) by (apply Z.pow_pos_nonneg; lia).
+  replace (10 ^ k) with (10 ^ (k - j) * 10 ^ j) by (rewrite <- Z.pow_add_r by lia; f_equal; lia).
+  rewrite Z.div_mul by lia. rewrite Z.mod_mul by lia.
+  destruct (Z.gtb_spec 0 (5 * 10 ^ (j - 1))); [lia|].
+  destruct (Z.eqb_spec 0 (5 * 10 ^ (j - 1))); [lia | reflexivity].
+Qed.
+
+Lemma fit_pow10_overflow : forall neg k, 6145 <= k -> fit neg (10 ^ k) 0 = DInf neg.
+Proof.
+  intros neg k Hk. unfold fit, round_coef. cbv zeta. unfold prec34, emax.
+  rewrite digits_pow10 by lia.
+  destruct (Z.leb_spec (k + 1) 34); [lia|].
+  rewrite drop_digits_pow10 by lia.
+  replace (k - (k + 1 - 34)) with 33 by lia.
+  rewrite (digits_pow10 33) by lia. change (33 + 1 >? 34) with false. cbv iota.
+  assert (P : 0 < 10 ^ 33) by (apply Z.pow_pos_nonneg; lia).
+  destruct (Z.eqb_spec (10 ^ 33) 0); [lia|].
+  destruct (Z.gtb_spec (0 + (k + 1 - 34)) 6111); [|lia].
+  rewrite (digits_pow10 33) by lia.
+  destruct (Z.leb_spec (33 + 1 + (0 + (k + 1 - 34) - 6111)) 34); [lia | reflexivity].
+Qed.
+
+Lemma take_digits_zeros : forall n acc m,
+  take_digits (repeat 48 n) acc m = (acc * 10 ^ Z.of_nat n, m + Z.of_nat n, []).
+Proof.
+  induction n as [|n IH]; intros acc m.
+  - simpl. repeat (f_equal; try lia).
+  - cbn [repeat take_digits]. change (is_digit 48) with true. cbv iota. rewrite IH.
+    rewrite Nat2Z.inj_succ, Z.pow_succ_r by lia. repeat (f_equal; try lia).
+Qed.
+
+Theorem json_number_plain_overflow : forall n, 6145 <= Z.of_nat n ->
+  let t := 49 :: repeat 48 n in
+  json_number_ok t = true /\ no_exp t = true /\ parse_dec t = None.
+Proof.
+  intros n Hn t. subst t. split; [|split].
+  - rewrite json_number_ok_stages.
+    change (strip_minus (49 :: repeat 48 n)) with (49 :: repeat 48 n).
+    change (jn_int (49 :: repeat 48 n))
+      with (let '(_, _, r') := take_digits (repeat 48 n) 0 0 in Some r').
+    rewrite take_digits_zeros. reflexivity.
+  - unfold no_exp. apply forallb_forall. intros b [<-|Hb]; [reflexivity|].
+    apply repeat_spec in Hb. subst b. reflexivity.
+  - rewrite parse_dec_alt. change (49 =? 43) with false. change (49 =? 45) with false. cbv iota.
+    rewrite (parse_dec_body_plain false 49 (repeat 48 n) (10 ^ Z.of_nat n) (1 + Z.of_nat n) []
+               (10 ^ Z.of_nat n) 0 (1 + Z.of_nat n)).
+    + change (- 0) with 0. rewrite fit_pow10_overflow by lia. reflexivity.
+    + reflexivity.
+    + cbn [take_digits]. change (is_digit 49) with true. cbv iota. rewrite take_digits_zeros.
+      repeat (f_equal; try lia).
+    + reflexivity.
+    + lia.
+Qed.
+
+(* ------------------------------------------------------------------ *)
+(* 0''. the RFC 8259 number checker implies the JSON text parser        *)
+(* ------------------------------------------------------------------ *)
+(* jnumber of Json/JsonText.v cut into the same stages as json_number_ok (same
+   source text, so the stage equation holds by conversion); each stage also
+   counts the bytes it consumed *)
+Definition jv_n0 (s : bytes) : Z := match s with 45 :: _ => 1 | _ => 0 end.
+Definition jv_int (s1 : bytes) : option (Z * bytes) :=
+  match s1 with
+  | 48 :: r => Some (1, r)
+  | b :: r => if (49 <=? b) && (b <=? 57) then let '(_, n, r') := take_digits r 0 0 in Some (1 + n, r') else None
+  | [] => None
+  end.
+Definition jv_frac (r1 : bytes) : option (Z * bytes) :=
+  match r1 with
+  | 46 :: r => let '(_, n, r') := take_digits r 0 0 in if n =? 0 then None else Some (1 + n, r')
+  | _ => Some (0, r1)
+  end.
+Definition jv_sign (r : bytes) : Z * bytes :=
+  match r with 45 :: t => (1, t) | 43 :: t => (1, t) | _ => (0, r) end.
+Definition jn_sign (r : bytes) : bytes :=
+  match r with 45 :: t => t | 43 :: t => t | _ => r end.
+Definition jv_exp (r2 : bytes) : option (Z * bytes) :=
+  match r2 with
+  | b :: r =>
+    if (b =? 101) || (b =? 69) then
+      let '(ns, r') := jv_sign r in
+      let '(_, n, r'') := take_digits r' 0 0 in
+      if n =? 0 then None else Some (1 + ns + n, r'')
+    else Some (0, r2)
+  | [] => Some (0, r2)
+  end.
+
+Lemma jnumber_stages : forall s, jnumber s =
+  match jv_int (skipn (Z.to_nat (jv_n0 s)) s) with
+  | None => None
+  | Some (ni, r1) =>
+    match jv_frac r1 with
+    | None => None
+    | Some (nf, r2) =>
+      match jv_exp r2 with
+      | None => None
+      | Some (ne, r3) => Some (firstn (Z.to_nat (jv_n0 s + ni + nf + ne)) s, r3)
+      end
+    end
+  end.
+Proof. reflexivity. Qed.
+
+Lemma jv_n0_strip : forall s,
+  skipn (Z.to_nat (jv_n0 s)) s = strip_minus s /\
+  jv_n0 s + Z.of_nat (length (strip_minus s)) = Z.of_nat (length s).
+Proof.
+  intros s. destruct s as [|[|p|p] r]; try (split; reflexivity).
+  do 6 (destruct p as [p|p|]; try (split; reflexivity)).
+  unfold jv_n0, strip_minus. change (Z.to_nat 1) with 1%nat. cbn [skipn]. split; [reflexivity|].
+  change (length (45 :: r)) with (S (length r)). lia.
+Qed.
+
+Lemma take_digits_len : forall r a n r', take_digits r 0 0 = (a, n, r') ->
+  0 <= n /\ n + Z.of_nat (length r') = Z.of_nat (length r).
+Proof.
+  intros r a n r' T.
+  destruct (take_digits_bound r 0 0 0 _ _ _ ltac:(lia) ltac:(change (10 ^ 0) with 1; lia) T)
+    as (_ & C & L & _). lia.
+Qed.
+
+Lemma jv_int_of_jn : forall s1 r1, jn_int s1 = Some r1 ->
+  exists ni, jv_int s1 = Some (ni, r1) /\ ni + Z.of_nat (length r1) = Z.of_nat (length s1).
+Proof.
+  intros s1 r1 H.
+  assert (A : jv_int s1 =
+    match s1 with
+    | [] => None
+    | b :: r =>
+      if b =? 48 then Some (1, r)
+      else if (49 <=? b) && (b <=? 57) then let '(_, n, r') := take_digits r 0 0 in Some (1 + n, r') else None
+    end).
+  { destruct s1 as [|[|p|p] r]; try reflexivity.
+    do 6 (destruct p as [p|p|]; try reflexivity). }
+  rewrite A. rewrite jn_int_alt in H. destruct s1 as [|b r]; [discriminate|].
+  destruct (b =? 48).
+  - inversion H; subst r1. exists 1. split; [reflexivity|].
+    change (length (b :: r)) with (S (length r)). lia.
+  - destruct ((49 <=? b) && (b <=? 57)); [|discriminate].
+    destruct (take_digits r 0 0) as [[x n] r'] eqn:T. inversion H; subst r'.
+    apply take_digits_len in T. exists (1 + n). split; [reflexivity|].
+    change (length (b :: r)) with (S (length r)). lia.
+Qed.
+
+Lemma jv_frac_of_jn : forall r1 r2, jn_frac r1 = Some r2 ->
+  exists nf, jv_frac r1 = Some (nf, r2) /\ nf + Z.of_nat (length r2) = Z.of_nat (length r1).
+Proof.
+  intros r1 r2 H.
+  assert (A : jv_frac r1 =
+    match r1 with
+    | [] => Some (0, r1)
+    | b :: r =>
+      if b =? 46 then let '(_, n, r') := take_digits r 0 0 in if n =? 0 then None else Some (1 + n, r')
+      else Some (0, r1)
+    end).
+  { destruct r1 as [|[|p|p] r]; try reflexivity.
+    do 6 (destruct p as [p|p|]; try reflexivity). }
+  rewrite A. rewrite jn_frac_alt in H. destruct r1 as [|b r].
+  - inversion H; subst r2. exists 0. split; [reflexivity | lia].
+  - destruct (b =? 46).
+    + destruct (take_digits r 0 0) as [[x n] r'] eqn:T. destruct (n =? 0); [discriminate|].
+      inversion H; subst r'. apply take_digits_len in T. exists (1 + n). split; [reflexivity|].
+      change (length (b :: r)) with (S (length r)). lia.
+    + inversion H; subst r2. exists 0. split; [reflexivity | lia].
+Qed.
+
+Lemma jv_sign_of_jn : forall r, exists ns,
+  jv_sign r = (ns, jn_sign r) /\ ns + Z.of_nat (length (jn_sign r)) = Z.of_nat (length r).
+Proof.
+  intros r.
+  destruct r as [|[|p|p] t]; try (exists 0; split; [reflexivity | unfold jn_sign; lia]).
+  do 6 (destruct p as [p|p|];
+        try first [ exists 0; split; [reflexivity | unfold jn_sign; lia]
+                  | exists 1; split; [reflexivity | unfold jn_sign; cbn [length]; lia] ]).
+Qed.
+
+Lemma jv_exp_of_jn : forall r2, jn_exp r2 = true ->
+  exists ne, jv_exp r2 = Some (ne, []) /\ ne = Z.of_nat (length r2).
+Proof.
+  intros r2 H. destruct r2 as [|b r]; [exists 0; split; reflexivity|].
+  unfold jn_exp in H. unfold jv_exp. destruct ((b =? 101) || (b =? 69)); [|discriminate].
+  change (match r with 45 :: t1 => t1 | 43 :: t2 => t2 | _ => r end) with (jn_sign r) in H.
+  destruct (jv_sign_of_jn r) as (ns & -> & Ls).
+  destruct (take_digits (jn_sign r) 0 0) as [[x n] r''] eqn:T.
+  apply andb_true_iff in H as [H1 H2]. destruct r'' as [|? ?]; [|discriminate].
+  destruct (n =? 0); [discriminate|]. apply take_digits_len in T.
+  exists (1 + ns + n). split; [reflexivity|].
+  change (length (b :: r)) with (S (length r)). simpl length in T. lia.
+Qed.
+
+(* the scanner of the JSON parser accepts exactly the text the checker accepts,
+   all of it *)
+Lemma jnumber_of_ok : forall t, json_number_ok t = true -> jnumber t = Some (t, []).
+Proof.
+  intros t J. rewrite json_number_ok_stages in J. rewrite jnumber_stages.
+  destruct (jv_n0_strip t) as [-> L0].
+  destruct (jn_int (strip_minus t)) as [r1|] eqn:JI; [|discriminate].
+  destruct (jn_frac r1) as [r2|] eqn:JF; [|discriminate].
+  destruct (jv_int_of_jn _ _ JI) as (ni & -> & Li).
+  destruct (jv_frac_of_jn _ _ JF) as (nf & -> & Lf).
+  destruct (jv_exp_of_jn _ J) as (ne & -> & Le).
+  replace (jv_n0 t + ni + nf + ne) with (Z.of_nat (length t)) by lia.
+  rewrite Nat2Z.id, firstn_all. reflexivity.
+Qed.
+
+(* JSON number text starts with '-' or a digit *)
+Lemma json_number_head : forall t, json_number_ok t = true ->
+  exists b r, t = b :: r /\ (b = 45 \/ 48 <= b <= 57).
+Proof.
+  intros t J. pose proof J as J'. rewrite json_number_ok_stages in J'.
+  destruct (jn_int (strip_minus t)) as [r1|] eqn:JI; [|discriminate].
+  destruct (jn_frac r1) as [r2|] eqn:JF; [|discriminate].
+  destruct (jn_int_shape _ _ _ JI JF J') as (b & s' & Es1 & Db & _).
+  rewrite strip_minus_alt in Es1. destruct t as [|z r]; [discriminate|].
+  exists z, r. split; [reflexivity|]. destruct (Z.eqb_spec z 45) as [->|N]; [left; reflexivity|].
+  inversion Es1; subst. right. apply digit_facts; exact Db.
+Qed.
+
+(* on such text the value parser goes straight to the number scanner *)
+Lemma jvalue_number : forall f d b r, b = 45 \/ 48 <= b <= 57 ->
+  jvalue (S f) d (b :: r) =
+  match jnumber (b :: r) with Some (t, r') => Some (VNum (NJson t), r') | None => None end.
+Proof.
+  intros f d b r H.
+  assert (E : b = 45 \/ b = 48 \/ b = 49 \/ b = 50 \/ b = 51 \/ b = 52 \/ b = 53 \/ b = 54 \/
+              b = 55 \/ b = 56 \/ b = 57) by lia.
+  repeat (destruct E as [->|E]; [reflexivity|]). subst b. reflexivity.
+Qed.
+
+(* THE INCLUSION: every text the RFC 8259 number grammar accepts is a JSON text
+   for the decoder, and it decodes to that very json.Number *)
+Theorem json_number_parses : forall t, json_number_ok t = true ->
+  json_parse t = Some (VNum (NJson t)).
+Proof.
+  intros t J. destruct (json_number_head t J) as (b & r & E & Hb).
+  unfold json_parse. rewrite E at 2. rewrite jvalue_number by exact Hb.
+  rewrite <- E. rewrite (jnumber_of_ok t J). reflexivity.
+Qed.
+
+Corollary json_number_text_ok : forall t, json_number_ok t = true -> json_text_ok t = true.
+Proof. intros t J. unfold json_text_ok. rewrite (json_number_parses t J). reflexivity. Qed.
+
+Corollary json_number_parse_ex : forall t, json_number_ok t = true -> exists v, json_parse t = Some v.
+Proof. intros t J. rewrite (json_number_parses t J). eauto. Qed.
+
+(* ------------------------------------------------------------------ *)
+(* 1a. reflexivity on ALL JSON values                                   *)
+(* ------------------------------------------------------------------ *)
+Lemma arr_eq_refl : forall a, Forall (fun x => equal x x = true) a -> arr_eq a a = true.
+Proof.
+  induction 1 as [|x a Hx _ IH]; cbn [arr_eq]; [reflexivity|]. rewrite Hx, IH. reflexivity.
+Qed.
+
+Theorem equal_refl : forall x, json_value x = true -> equal x x = true.
 Proof.
   induction x as [ | b | s | n | a IH | a IH | t] using value_ind'; intros J.
-  - simpl; tauto.
-  - simpl. rewrite Bool.eqb_reflx. tauto.
-  - simpl. rewrite beqb_refl. tauto.
-  - rewrite equal_num_l. destruct n as [t | | | ]; try discriminate J.
-    cbn [num_ok]. change (to_decimal (VNum (NJson t))) with (parse_dec t).
+  - reflexivity.
+  - simpl. apply Bool.eqb_reflx.
+  - simpl. apply beqb_refl.
+  - destruct n as [t | | | ]; try discriminate J.
     change (json_value (VNum (NJson t))) with (json_number_ok t) in J.
-    destruct (parse_dec t) as [d|] eqn:E.
-    + pose proof (json_number_dec_ok _ _ J E) as Hd. rewrite dec_equal_refl by exact Hd.
-      split; [intros _; exists d; auto | reflexivity].
-    + split; [discriminate | intros (d & Hd & _); discriminate].
-  - rewrite equal_arr, num_ok_arr. apply json_arr in J. apply arr_refl_iff.
+    apply equal_num_text. apply json_number_text_ok. exact J.
+  - rewrite equal_arr. apply json_arr in J. apply arr_eq_refl.
     rewrite Forall_forall in *. auto.
-  - rewrite equal_obj, num_ok_obj. apply json_obj in J as [N J].
-    rewrite Nat.eqb_refl. cbn [andb]. rewrite obj_sub_spec. rewrite Forall_forall in *. split.
-    + intros H [k u] Hin. cbn [snd].
-      destruct (H k u Hin) as (v & Ev & Hv).
-      rewrite (in_assoc _ _ _ N Hin) in Ev. inversion Ev; subst v.
-      apply (IH (k, u) Hin (J (k, u) Hin)). exact Hv.
-    + intros H k u Hin. exists u. split; [apply in_assoc; assumption|].
-      apply (IH (k, u) Hin (J (k, u) Hin)). apply (H (k, u) Hin).
+  - rewrite equal_obj. apply json_obj in J as [N J].
+    rewrite Nat.eqb_refl. cbn [andb]. apply obj_sub_spec. rewrite Forall_forall in *.
+    intros k u Hin. exists u. split; [apply in_assoc; assumption|].
+    apply (IH (k, u) Hin (J (k, u) Hin)).
   - discriminate J.
 Qed.
 
-Theorem equal_refl : forall x, json_value x = true -> num_ok x -> equal x x = true.
-Proof. intros x J N. apply equal_refl_iff; assumption. Qed.
+(* the version with an explicit premise instead of the inclusion theorem: it
+   also covers number leaves that are not RFC 8259 text but still JSON text *)
+Fixpoint num_leaves (Q : num -> Prop) (v : value) {struct v} : Prop :=
+  match v with
+  | VNum n => Q n
+  | VArr l =>
+    (fix all (l : list value) : Prop :=
+       match l with [] => True | x :: r => num_leaves Q x /\ all r end) l
+  | VObj m =>
+    (fix all (m : list (bytes * value)) : Prop :=
+       match m with [] => True | (_, x) :: r => num_leaves Q x /\ all r end) m
+  | _ => True
+  end.
 
-(* FINDING: reflexivity fails on JSON documents.  1e7000 is a valid JSON number
-   (json.Number keeps the text), toDecimal fails on it with a range error, and
-   equal() then answers false, also for the value compared with itself, for any
-   array/object containing it, and for contains(). *)
-Example equal_refl_refuted :
+Lemma num_leaves_arr : forall Q l, num_leaves Q (VArr l) <-> Forall (num_leaves Q) l.
+Proof.
+  intros Q. induction l as [|x r IH].
+  - split; intros; constructor.
+  - change (num_leaves Q (VArr (x :: r))) with (num_leaves Q x /\ num_leaves Q (VArr r)).
+    rewrite IH, Forall_cons_iff. reflexivity.
+Qed.
+
+Lemma num_leaves_obj : forall Q m,
+  num_leaves Q (VObj m) <-> Forall (fun kv => num_leaves Q (snd kv)) m.
+Proof.
+  intros Q. induction m as [|[k x] r IH].
+  - split; intros; constructor.
+  - change (num_leaves Q (VObj ((k, x) :: r))) with (num_leaves Q x /\ num_leaves Q (VObj r)).
+    rewrite IH, Forall_cons_iff. reflexivity.
+Qed.
+
+(* no opaque Go value anywhere inside *)
+Fixpoint no_foreign (v : value) : bool :=
+  match v with
+  | VForeign _ => false
+  | VArr l => forallb no_foreign l
+  | VObj m => forallb (fun kv => no_foreign (snd kv)) m
+  | _ => true
+  end.
+
+(* exact characterisation of reflexivity on well-formed Go values: no opaque
+   value inside, and every number leaf is equal to itself *)
+Theorem equal_refl_iff : forall x, wf_value x = true ->
+  (equal x x = true <->
+   no_foreign x = true /\ num_leaves (fun n => equal (VNum n) (VNum n) = true) x).
+Proof.
+  induction x as [ | b | s | n | a IH | a IH | t] using value_ind'; intros W.
+  - simpl; tauto.
+  - simpl. rewrite Bool.eqb_reflx. tauto.
+  - simpl. rewrite beqb_refl. tauto.
+  - cbn [num_leaves no_foreign]. tauto.
+  - rewrite equal_arr, num_leaves_arr. apply wf_arr in W.
+    change (no_foreign (VArr a)) with (forallb no_foreign a). rewrite forallb_forall.
+    rewrite Forall_forall in *. split.
+    + intros H. assert (K : forall u, In u a -> equal u u = true).
+      { clear IH W. induction a as [|v a IHa]; intros u [].
+        - subst. cbn [arr_eq] in H. apply andb_true_iff in H as [H _]. exact H.
+        - cbn [arr_eq] in H. apply andb_true_iff in H as [_ H]. auto. }
+      split; intros u Hu; apply (IH u Hu (W u Hu)); auto.
+    + intros [F N]. apply arr_eq_refl. apply Forall_forall. intros u Hu.
+      apply (IH u Hu (W u Hu)). auto.
+  - rewrite equal_obj, num_leaves_obj. apply wf_obj in W as [N W].
+    change (no_foreign (VObj a)) with (forallb (fun kv => no_foreign (snd kv)) a).
+    rewrite forallb_forall.
+    rewrite Nat.eqb_refl. cbn [andb]. rewrite obj_sub_spec. rewrite Forall_forall in *. split.
+    + intros H. assert (K : forall kv, In kv a -> equal (snd kv) (snd kv) = true).
+      { intros [k u] Hin. destruct (H k u Hin) as (v & Ev & Hv).
+        rewrite (in_assoc _ _ _ N Hin) in Ev. inversion Ev; subst v. exact Hv. }
+      split; intros kv Hin; apply (IH kv Hin (W kv Hin)); auto.
+    + intros [F L] k u Hin. exists u. split; [apply in_assoc; assumption|].
+      apply (IH (k, u) Hin (W (k, u) Hin)). split; [apply (F (k, u) Hin) | apply (L (k, u) Hin)].
+  - simpl. split; [discriminate | intros [F _]; discriminate].
+Qed.
+
+(* a number leaf is equal to itself iff it is valid JSON text or it decodes to
+   something other than NaN *)
+Lemma equal_num_refl_iff : forall n,
+  equal (VNum n) (VNum n) = true <->
+  (exists s, n = NJson s /\ json_text_ok s = true) \/
+  (exists d, to_decimal (VNum n) = Some d /\ dec_equal d d = true).
+Proof.
+  intros n. split.
+  - intros H. apply equal_num_inv in H as (n' & E & [(s & -> & _ & K) | (a & b & E1 & E2 & H)]).
+    + left. eauto.
+    + inversion E; subst n'. rewrite E1 in E2. inversion E2; subst b. right. eauto.
+  - intros [(s & -> & K) | (d & E & H)].
+    + apply equal_num_text; exact K.
+    + eapply equal_num_dec; eauto.
+Qed.
+
+(* reflexivity from an explicit premise on the number leaves only (does not use
+   the inclusion theorem [json_number_parses]) *)
+Theorem equal_refl_premise : forall x, wf_value x = true -> no_foreign x = true ->
+  num_leaves (fun n => match n with NJson t => json_parse t <> None | _ => False end) x ->
+  equal x x = true.
+Proof.
+  intros x W F L. apply equal_refl_iff; [exact W|]. split; [exact F|].
+  clear W F. induction x as [ | b | s | n | a IH | a IH | t] using value_ind'; try exact I.
+  - cbn [num_leaves] in *. destruct n as [t| | | ]; try contradiction.
+    apply equal_num_text. unfold json_text_ok. destruct (json_parse t); [reflexivity | contradiction].
+  - apply num_leaves_arr in L. apply num_leaves_arr. rewrite Forall_forall in *. auto.
+  - apply num_leaves_obj in L. apply num_leaves_obj. rewrite Forall_forall in *. auto.
+Qed.
+
+(* FIXED FINDING (was [equal_refl_refuted]): 1e7000 is a valid JSON number that
+   no decimal128 can hold; it is now equal to itself, inside arrays and objects
+   too, contains() finds it and != is false on it. *)
+Example equal_big_number_refl :
   let x := VNum (NJson big_number) in
-  json_value x = true /\ equal x x = false /\
-  json_value (VArr [x]) = true /\ equal (VArr [x]) (VArr [x]) = false /\
-  json_value (VObj [([97], x)]) = true /\ equal (VObj [([97], x)]) (VObj [([97], x)]) = false /\
-  contains (VArr [x]) x = Ok (VBool false) /\
-  binop_eval ONe x x = Ok (VBool true).
+  json_value x = true /\ to_decimal x = None /\ equal x x = true /\
+  equal (VArr [x]) (VArr [x]) = true /\
+  equal (VObj [([97], x)]) (VObj [([97], x)]) = true /\
+  contains (VArr [x]) x = Ok (VBool true) /\
+  binop_eval ONe x x = Ok (VBool false) /\ binop_eval OEq x x = Ok (VBool true).
+Proof. repeat split; vm_compute; reflexivity. Qed.
+
+(* general consequences of reflexivity *)
+Corollary ne_self_false : forall x, json_value x = true ->
+  binop_eval ONe x x = Ok (VBool false) /\ binop_eval OEq x x = Ok (VBool true).
+Proof.
+  intros x J. destruct (ne_is_negation x x) as [-> ->]. rewrite (equal_refl x J). split; reflexivity.
+Qed.
+
+Corollary contains_member : forall l x, json_value x = true -> In x l ->
+  contains (VArr l) x = Ok (VBool true).
+Proof.
+  intros l x J Hin. rewrite contains_uses_equal.
+  replace (existsb (fun y => equal y x) l) with true; [reflexivity|].
+  symmetry. apply existsb_exists. exists x. split; [exact Hin | apply equal_refl; exact J].
+Qed.
+
+(* REMAINING LIMIT of the textual shortcut: numbers outside the decimal128 range
+   are compared as text only, so two spellings of one such value differ, and a
+   number that no decimal holds is never equal to a different text *)
+Example equal_big_numbers_textual :
+  let x := VNum (NJson big_number) in                                   (* 1e7000 *)
+  let y := VNum (NJson [49; 48; 101; 54; 57; 57; 57]) in                (* 10e6999 *)
+  let z := VNum (NJson [49; 69; 55; 48; 48; 48]) in                     (* 1E7000 *)
+  json_value y = true /\ json_value z = true /\
+  equal x y = false /\ equal x z = false /\ equal y x = false /\ equal z x = false.
 Proof. repeat split; vm_compute; reflexivity. Qed.
 
 (* outside JSON: opaque Go values are never equal, not even to themselves *)
@@ -651,17 +1518,17 @@ Proof. reflexivity. Qed.
 (* 3. objects compare regardless of member order                        *)
 (* ------------------------------------------------------------------ *)
 Theorem equal_obj_perm : forall m m', nodup_keys m = true -> Permutation m m' ->
-  json_value (VObj m) = true -> num_ok (VObj m) -> equal (VObj m) (VObj m') = true.
+  json_value (VObj m) = true -> equal (VObj m) (VObj m') = true.
 Proof.
-  intros m m' N P J K. rewrite equal_obj.
+  intros m m' N P J. rewrite equal_obj.
   rewrite (Permutation_length P), Nat.eqb_refl. cbn [andb].
   apply obj_sub_spec. intros k u Hin.
   assert (N' : nodup_keys m' = true).
   { apply nodup_keys_NoDup. eapply Permutation_NoDup; [apply Permutation_map; exact P|].
     apply nodup_keys_NoDup; exact N. }
   exists u. split; [apply in_assoc; [exact N' | eapply Permutation_in; eauto]|].
-  apply json_obj in J as [_ J]. apply num_ok_obj in K. rewrite Forall_forall in *.
-  apply equal_refl; [apply (J (k, u) Hin) | apply (K (k, u) Hin)].
+  apply json_obj in J as [_ J]. rewrite Forall_forall in *.
+  apply equal_refl. apply (J (k, u) Hin).
 Qed.
 
 (* and the permuted object is again a JSON value, so all the theorems apply to it *)
@@ -674,32 +1541,59 @@ Proof.
   - rewrite Forall_forall in *. intros kv H. apply J. eapply Permutation_in; [symmetry; exact P | exact H].
 Qed.
 
-(* ------------------------------------------------------------------ *)
-(* 4. numbers by value                                                  *)
-(* ------------------------------------------------------------------ *)
-Example equal_spellings :
-  equal (VNum (NJson [49])) (VNum (NJson [49; 46; 48])) = true /\
-  equal (VNum (NJson [49])) (VNum (NJson [49; 101; 48])) = true.  (* 1, 1.0, 1e0 *)
-Proof. split; vm_compute; reflexivity. Qed.
+(* == is an equivalence relation on JSON values *)
+Theorem equal_equivalence :
+  (forall x, json_value x = true -> equal x x = true) /\
+  (forall x y, json_value x = true -> json_value y = true -> equal x y = equal y x) /\
+  (forall x y z, equal x y = true -> equal y z = true -> equal x z = true).
+Proof. split; [exact equal_refl | split; [exact equal_sym | exact equal_trans_all]]. Qed.
 
-Theorem equal_numbers : forall s t a b, parse_dec s = Some a -> parse_dec t = Some b ->
-  equal (VNum (NJson s)) (VNum (NJson t)) = dec_equal a b.
+(* ------------------------------------------------------------------ *)
+(* numbers decodable: when do the ORDER comparisons (<, <=, ...) and the  *)
+(* decimal reading of == apply to every number of a document             *)
+(* ------------------------------------------------------------------ *)
+Definition num_ok (v : value) : Prop :=
+  num_leaves (fun n => exists d, to_decimal (VNum n) = Some d /\ dec_ok d) v.
+
+Lemma num_ok_arr : forall l, num_ok (VArr l) <-> Forall num_ok l.
+Proof. intros; apply num_leaves_arr. Qed.
+
+Lemma num_ok_obj : forall m, num_ok (VObj m) <-> Forall (fun kv => num_ok (snd kv)) m.
+Proof. intros; apply num_leaves_obj. Qed.
+
+(* JSON documents whose numbers are written without an exponent and with at most
+   6144 bytes all decode *)
+Definition plain_numbers (v : value) : Prop :=
+  num_leaves (fun n => match n with
+                       | NJson t => no_exp t = true /\ Z.of_nat (length t) <= 6144
+                       | _ => True end) v.
+
+Lemma plain_num_ok : forall x, json_value x = true -> plain_numbers x -> num_ok x.
 Proof.
-  intros s t a b Hs Ht. rewrite equal_num_l.
-  change (to_decimal (VNum (NJson s))) with (parse_dec s).
-  change (to_decimal (VNum (NJson t))) with (parse_dec t).
-  rewrite Hs, Ht. reflexivity.
+  induction x as [ | b | s | n | a IH | a IH | t] using value_ind'; intros J P; try exact I.
+  - destruct n as [t | | | ]; try discriminate J. destruct P as [P1 P2].
+    exact (json_number_plain_decodes t J P1 P2).
+  - apply json_arr in J. apply num_leaves_arr in P. apply num_ok_arr.
+    rewrite Forall_forall in *. intros u Hu.
+    apply IH; [exact Hu | apply J; exact Hu | apply P; exact Hu].
+  - apply json_obj in J as [_ J]. apply num_leaves_obj in P. apply num_ok_obj.
+    rewrite Forall_forall in *. intros u Hu.
+    apply IH; [exact Hu | apply J; exact Hu | apply P; exact Hu].
 Qed.
 
-(* a number is never equal to its string spelling, to a boolean or to null *)
-Example equal_strict_examples :
-  equal (VNum (NJson [49])) (VStr [49]) = false /\ equal (VStr [49]) (VNum (NJson [49])) = false /\
-  equal (VNum (NJson [48])) (VBool false) = false /\ equal VNull (VBool false) = false /\
-  equal (VArr []) (VObj []) = false /\ equal (VStr []) VNull = false.
-Proof. repeat split; vm_compute; reflexivity. Qed.
+(* subsumed by [equal_refl]; kept under its name *)
+Theorem equal_refl_plain : forall x, json_value x = true -> plain_numbers x -> equal x x = true.
+Proof. intros x J _. apply equal_refl; exact J. Qed.
 
-Print Assumptions equal_refl_iff.
 Print Assumptions equal_sym.
 Print Assumptions equal_obj_perm.
 Print Assumptions json_number_dec_ok.
+Print Assumptions json_number_dec_finite.
+Print Assumptions json_number_plain_finite.
+Print Assumptions json_number_plain_overflow.
+Print Assumptions json_number_parses.
+Print Assumptions equal_numbers.
+Print Assumptions is_true_false_iff.
+Print Assumptions equal_refl_iff.
 Print Assumptions equal_trans.
+Print Assumptions equal_refl.
